@@ -28,6 +28,7 @@ PLANS = {
             ("thrsim", "tsi", "threads", 6000, 100000, ("C10",))],      # the outstanding set after several threads allocated and released under the thread-safe overloads: "exactly as if the operations had run one after another" is this property's set identity under interleavings
     "C05": [("heapsim", "asan", "soundness", 120000, 1500000), ("heapsim", "noguard", "soundness", 60000, 700000), ("heapsim", "asan", "accounting", 16000, 200000), ("heapsim", "asan", "oom", 16000, 200000),
             ("thrsim", "tsi", "threads", 6000, 100000, ("C10",)),      # the same allocation forms from several threads: a block that two threads were handed, or a table damaged by a race, is not a sound block
+            ("heapsim", "asan", "misuse", 40000, 400000),      # blocks from new / new[] handed to realloc with type checking off, releases through every family: what reaches the platform's free must be an address the platform handed out
             ("thrsim", "tsi", "locked_misuse", 6000, 100000, ("C10",))],      # after a request the detector refused with a report (the test is left by a jump), every later tracked request of any thread still returns: one that waits for ever for the detector's lock neither returns a sound block nor fails cleanly
     "C06": [("heapsim", "asan", "misuse", 300000, 3000000), ("heapsim", "noguard", "misuse", 100000, 1000000), ("heapsim", "asan", "accounting", 20000, 200000, ("C04",)),
             ("heapsim", "asan", "soundness", 30000, 300000, ("C04",)),      # (C04 released_while_held counts here: a block whose memory went back to the platform while the detector still lists it cannot be released silently any more, and the history cannot safely go on to watch it try) after a request that failed (platform, allocator or bookkeeping node) the paired release of the old block is still silent
